@@ -9,7 +9,7 @@ import json,re
 m=json.load(open('$d/meta.json'))
 print(' '.join(sorted({re.match(r'C\d+',x).group(0) for x in m['detected_by'] if re.match(r'C\d+',x)})))")
   [ -z "$props" ] && { echo "$id: no detecting check recorded"; continue; }
-  out=$(tools/seedcheck.sh $d $props 2>&1)
+  out=$(SEEDCHECK_FAST=1 tools/seedcheck.sh $d $props 2>&1)
   for p in $props; do
     if echo "$out" | grep -q "^VIOLATION property=$p "; then echo "$id: caught by $p"; else echo "$id: NOT caught by $p"; fi
   done
